@@ -747,7 +747,9 @@ func c15Background(r *kit.Run, idx int64, rng *rand.Rand) {
 			}
 		})
 		if !ok {
-			if c, q := kit.Quiesce(c14Watchdog); q {
+			if c, q := kit.Quiesce(c14Watchdog); isClosed(done) {
+				// returned late (slow machine): judged below as usual
+			} else if q {
 				r.Violation("C15/"+name+"/waiter-never-returns", idx, map[string]any{"wrapper": name}, fmt.Sprintf("the waiter is still blocked at quiescence: %v", c.Describe()), nil)
 			} else {
 				r.Inconclusive("C15 background scenario did not finish and is not quiescent")
